@@ -44,8 +44,13 @@ def applyMut (fs : FS) (kind : String) (p : Path) (bytes : Option String) (mtime
       | _ => fs)
   | k => .error s!"bad mutation {k}"
 
-structure StepOut where
-  j : Lean.Json
+/-- the record the cache file currently stands for (null: none / unreadable) -/
+def showRec (w : World) (cf : Path) : Lean.Json :=
+  match w.cacheState cf with
+  | .valid r => Json.mkObj [("outputs", .arr (r.outputs.map fun p => .str (showPath p)).toArray),
+                            ("created", .arr (r.createdDirs.map fun p => .str (showPath p)).toArray),
+                            ("name", .str r.buildName)]
+  | _ => .null
 
 def lookupVersion (versions : List (String × FB.Json)) (name : String) : FB.Json :=
   match versions.find? (·.1 = name) with
@@ -70,7 +75,7 @@ def runHist (j : Lean.Json) : Except String Lean.Json := do
         let mtime := match getNat a[4] with | .ok n => some n | .error _ => none
         let fs' ← applyMut w.fs (← a[1].getStr?) (parsePath (← a[2].getStr?)) bytes mtime
         w := { w with fs := fs' }
-        outs := outs.push (Json.mkObj [("tree", showTree w.fs)])
+        outs := outs.push (Json.mkObj [("tree", showTree w.fs), ("rec", showRec w cf)])
       else throw "bad mut"
     | "build" =>
       -- ["build", buildName, versions(wire dict), rootIdx, arg]
@@ -90,14 +95,15 @@ def runHist (j : Lean.Json) : Except String Lean.Json := do
         w := out.world
         outs := outs.push (Json.mkObj [
           ("res", showRes out.res), ("tree", showTree w.fs),
-          ("inv", .arr (out.invLog.map showInv).toArray), ("obl", .bool out.obligation)])
+          ("inv", .arr (out.invLog.map showInv).toArray), ("obl", .bool out.obligation),
+          ("trace", .arr (out.trace.map showCall).toArray), ("rec", showRec w cf)])
       else throw "bad build"
     | "clean" =>
       if h : a.size = 2 then
         let name := match a[1] with | .str s => some s | _ => none
         let out := Spec.clean w cf name
         w := out.world
-        outs := outs.push (Json.mkObj [("res", showRes out.res), ("tree", showTree w.fs)])
+        outs := outs.push (Json.mkObj [("res", showRes out.res), ("tree", showTree w.fs), ("rec", showRec w cf)])
       else throw "bad clean"
     | k => throw s!"bad step {k}"
   return Json.mkObj [("steps", .arr outs)]
